@@ -42,3 +42,10 @@ func init() {
 	extFuncs[coreMod+"/consensus.ElementAccumulator.containsResolvedFileContractElement"] = "containsResolvedFileContractElement"
 	tcodeRoots = append(tcodeRoots, "consensus.validateSupplement")
 }
+
+func init() {
+	// C01 — the balance equation of a v2 transaction (second half of validateV2Siacoins: four loops, a type assertion)
+	regionRoots = append(regionRoots,
+		regionSpec{fn: "consensus.validateV2Siacoins", name: "balance", from: "var inputSum, outputSum types.Currency"},
+	)
+}
